@@ -1,8 +1,16 @@
+// smoke imports every dependency a harness may need so go.mod lists them once.
 package main
 
 import (
 	"fmt"
 
+	_ "github.com/go-logr/logr"
+	_ "github.com/go-logr/logr/funcr"
+	_ "github.com/prometheus/client_golang/prometheus"
+	_ "github.com/prometheus/client_golang/prometheus/promhttp"
+	_ "github.com/prometheus/client_model/go"
+	_ "github.com/prometheus/common/expfmt"
+	_ "github.com/prometheus/common/model"
 	_ "go.opentelemetry.io/otel/exporters/otlp/otlplog/otlploggrpc"
 	_ "go.opentelemetry.io/otel/exporters/otlp/otlplog/otlploghttp"
 	_ "go.opentelemetry.io/otel/exporters/otlp/otlpmetric/otlpmetricgrpc"
@@ -11,9 +19,21 @@ import (
 	_ "go.opentelemetry.io/otel/exporters/otlp/otlptrace/otlptracehttp"
 	_ "go.opentelemetry.io/otel/exporters/prometheus"
 	_ "go.opentelemetry.io/otel/exporters/zipkin"
+	_ "go.opentelemetry.io/otel/log/noop"
 	_ "go.opentelemetry.io/otel/sdk/log"
 	_ "go.opentelemetry.io/otel/sdk/metric"
+	_ "go.opentelemetry.io/otel/sdk/metric/metricdata"
 	_ "go.opentelemetry.io/otel/sdk/trace"
+	_ "go.opentelemetry.io/otel/sdk/trace/tracetest"
+	_ "go.opentelemetry.io/proto/otlp/collector/logs/v1"
+	_ "go.opentelemetry.io/proto/otlp/collector/metrics/v1"
+	_ "go.opentelemetry.io/proto/otlp/collector/trace/v1"
+	_ "google.golang.org/genproto/googleapis/rpc/errdetails"
+	_ "google.golang.org/grpc"
+	_ "google.golang.org/grpc/codes"
+	_ "google.golang.org/grpc/status"
+	_ "google.golang.org/protobuf/proto"
+	_ "google.golang.org/protobuf/types/known/durationpb"
 	_ "pgregory.net/rapid"
 )
 
